@@ -31,10 +31,63 @@ def pregen(check):
             vcheck.log("C10: %s regenerated (the Go source's extract changed)" % fname)
 
 
+def post(check, pairs, stats):
+    """thorough tier only: the goroutine probe (cc lines) once more under Go's race detector.  Races reported on
+    the unchanged tree are the constructors' idempotent re-writes of the shared *SR on every call and
+    datumTransform's deferred restore (same values written back): not observable in answers, outside the
+    property, so they are COUNTED and summarised in the evidence, not flagged.  An answer that differs from the
+    fresh transformer's under the race build is flagged like any other."""
+    import re, shutil
+    if check.tier != "thorough":
+        return
+    s1 = os.path.join(check.rundir, "s1.txt")
+    if not os.path.exists(s1):
+        return
+    lines = [l for l in open(s1) if l.startswith("cc ")][:400]
+    if not lines:
+        return
+    inp = os.path.join(check.rundir, "cc-race-in.txt")
+    open(inp, "w").writelines(lines)
+    out = os.path.join(check.rundir, "c10race")
+    args = ["go", "build", "-race", "-tags", "verif", "-o", out]
+    mf = os.path.join(check.rundir, "alt.mod")
+    if vcheck.REPO != "/repo" and os.path.exists(mf):
+        args += ["-modfile", mf]
+    args.append("./cmd/c10")
+    with vcheck.Lock("go"):
+        b = subprocess.run(args, cwd=vcheck.HARNESS, env=vcheck.GOENV, stdout=subprocess.PIPE, stderr=subprocess.STDOUT, text=True)
+    if b.returncode != 0:
+        vcheck.log("C10: -race build not available: %s" % b.stdout.strip()[-200:])
+        check.cfg["explanation"] = "race probe: go build -race failed (no race runtime?)"
+        return
+    env = dict(vcheck.GOENV, GORACE="halt_on_error=0 history_size=2")
+    try:
+        r = subprocess.run([out, "impl"], stdin=open(inp), stdout=subprocess.PIPE, stderr=subprocess.PIPE, env=env, text=True, timeout=900)
+    except subprocess.TimeoutExpired:
+        check.cfg["explanation"] = "race probe: timeout"
+        return
+    nrace = r.stderr.count("WARNING: DATA RACE")
+    sites = {}
+    for blk in r.stderr.split("WARNING: DATA RACE")[1:]:
+        m = re.search(r"(?:Write|Read) at \S+ by goroutine \d+:\n\s+(\S+)\(\)", blk)
+        if m:
+            f = m.group(1).split("/")[-1]
+            sites[f] = sites.get(f, 0) + 1
+    diffs = [l for l in r.stdout.split("\n") if "=> cc diff" in l]
+    top = ", ".join("%s x%d" % kv for kv in sorted(sites.items(), key=lambda kv: -kv[1])[:8])
+    msg = ("race probe (thorough): %d cc lines under go -race, %d DATA RACE reports (first access in: %s), %d lines with an answer "
+           "differing from the fresh transformer's" % (len(lines), nrace, top or "-", len(diffs)))
+    vcheck.log("C10: " + msg)
+    check.cfg["explanation"] = msg
+    if diffs:
+        check.broken.append("goroutine probe under -race: concurrent answer differs from the fresh transformer's: " + diffs[0][-300:])
+
+
 CFG = {
     "id": "C10",
     "lean_modules": ["GeomV.C10.Proofs", "GeomV.C10.ProofsSrc", "GeomV.C10.ProofsDatum", "GeomV.C10.ProofsRefine"] + ["GeomV.C10.Ties." + t for t in TIES],
     "pregen": pregen,
+    "post": post,
     "exe": "geomv_c10",
     "go_cmd": "c10",
     "stages": ["go:gen", "go:impl", "lean:judge"],
@@ -45,7 +98,7 @@ CFG = {
         "C10_init_idempotent", "C10_init_frame", "C10_CoreOK_ctors", "C10_pure_ctors",
     ]] + [T + "tie_" + t for t in TIES] + [T + "tie_body_" + t for t in CTORS] + [T + n for n in [
         "C10_src_init_total", "C10_src_init_idempotent", "C10_src_init_frame",
-        "C10_datum_frame", "C10_datum_pure", "C10_datum_history", "C10_pure_with_datums", "C10_step_datums_frame",
+        "C10_datum_frame", "C10_datum_never_written", "C10_datum_pure", "C10_datum_history", "C10_pure_with_datums", "C10_step_datums_frame",
         "tie_transform3", "tie_closure", "tie_checkNotWGS", "tie_TransformConsts",
         "C10_mem_refines", "C10_mem_refines_flat", "C10_mem_refines_nil", "C10_mem_vertices", "C10_mem_input_kept",
     ]],
